@@ -147,25 +147,26 @@ Fixpoint remove_entries (es : list (str * node)) (k : str) : list (str * node) :
   | (k', v) :: r => if str_eqb k' k then remove_entries r k else (k', v) :: remove_entries r k
   end.
 
-(* deleteFromArray: drop the item whose *position* prints like the recorded
-   key of the victim; surviving items get their key text renumbered *)
-Fixpoint remove_item (items : list (rkey * node)) (victim : str) (pos : N) (kept : N) : list (rkey * node) :=
+(* deleteFromArray: drop the victim itself (by identity = its position);
+   surviving items get their key text renumbered *)
+Fixpoint remove_item (items : list (rkey * node)) (victim : nat) (pos : nat) (kept : N) : list (rkey * node) :=
   match items with
   | [] => []
   | (k, v) :: r =>
-      if str_eqb (dec_N pos) victim then remove_item r victim (pos + 1) kept
+      if Nat.eqb pos victim then remove_item r victim (S pos) kept
       else (match k with RIdx _ => RIdx kept | RStr _ => RStr (dec_N kept) end, v)
-             :: remove_item r victim (pos + 1) (kept + 1)
+             :: remove_item r victim (S pos) (kept + 1)
   end.
 
-Definition delete_child (par : node) (k : rkey) : res node :=
+(* deleteFromMap locates by key text; deleteFromArray by identity *)
+Definition delete_child (par : node) (k : rkey) (pos : nat) : res node :=
   match par with
   | Map es =>
       match k with
       | RStr s => Ok (Map (remove_entries es s))
       | RIdx _ => Ok par       (* key.Value == childPath compares a string with an int: never equal *)
       end
-  | Seq items => Ok (Seq (remove_item items (rkey_text k) 0 0))
+  | Seq items => Ok (Seq (remove_item items pos O 0))
   | Scalar _ _ => Err
   end.
 
@@ -207,10 +208,10 @@ Fixpoint shift_ptrs (par : ptr) (removed : list nat) (vs : list ptr) : list ptr 
 Fixpoint removed_entries (es : list (str * node)) (k : str) (i : nat) : list nat :=
   match es with [] => [] | (k', _) :: r => if str_eqb k' k then i :: removed_entries r k (S i) else removed_entries r k (S i) end.
 
-Definition removed_positions (par : node) (k : rkey) : list nat :=
+Definition removed_positions (par : node) (k : rkey) (pos : nat) : list nat :=
   match par with
   | Map es => match k with RStr s => removed_entries es s O | RIdx _ => [] end
-  | Seq items => filter (fun i => str_eqb (dec_N (N.of_nat i)) (rkey_text k)) (seq 0 (length items))
+  | Seq items => if Nat.ltb pos (length items) then [pos] else []
   | Scalar _ _ => []
   end.
 
